@@ -6,7 +6,7 @@ request : sym <dmax> [<hist>] <entry>,<entry>,…      entry = <hexname>:<K>:<he
                 image is loaded through FromTarball). The property quantifies over images and depths: the
                 answer does NOT depend on the history or the entry point, so the driver only validates the token.
           K: F file, D directory (with a child file "c"), M missing, X file deleted by layer 1,
-             L symlink, Y symlink deleted by layer 1
+             L symlink, Y symlink deleted by layer 1, H tar hard link (TypeLink; the link name is an archive entry name)
           the image has two layers: layer 0 holds the entries, layer 1 the whiteouts and a file "keep"
 reply   : d<k>=<view0>/<view1> (k = 0..dmax)  s<k>=<view0>/<view1>  cls=<…>
           per name (comma separated)   d: <Stat>.<Open>.<ReadDir>     s: the specification's verdict
@@ -33,7 +33,7 @@ def parseEnt (s : String) : Option Ent :=
   match s.splitOn ":" with
   | [n, k, l] =>
     match strOfHex n, k.toList, (if l = "-" then some "" else strOfHex l) with
-    | some n, [k], some l => if "FDMXLY".toList.contains k then some ⟨n, k, l⟩ else none
+    | some n, [k], some l => if "FDMXLYH".toList.contains k then some ⟨n, k, l⟩ else none
     | _, _, _ => none
   | _ => none
 
@@ -53,7 +53,21 @@ def entNodes (spec : Bool) (view : Nat) (e : Ent) : Option (List (Key × Node Ke
       | .loadError => none
       | .skipped => some []
       | .node t => some [(key, .link t)]
+  -- a hard link: the code makes it a link node whose target is read from the image root; the specification
+  -- says the same (a hard link names another archive entry)
+  let hardNode : Option (List (Key × Node Key)) :=
+    let ls := hardLinkSegs (e.link.splitOn "/")
+    if spec then
+      (match resolveLex [] ls with
+       | some t => some [(key, .link t)]
+       | none => some [])
+    else
+      match handleHardLink dir (e.link.splitOn "/") with
+      | .loadError => none
+      | .skipped => some []
+      | .node t => some [(key, .link t)]
   match e.kind with
+  | 'H' => hardNode
   | 'F' => some [(key, .term .file)]
   | 'D' => some [(key, .term .dir), (key ++ ["c"], .term .file)]
   | 'M' => some []
@@ -120,7 +134,7 @@ def specToks (tbl : List (Key × Node Key)) (d : Nat) (es : List Ent) : String :
   ",".intercalate (es.map fun e => verdictTok g (specWalk g d (e.name.splitOn "/")))
 
 def classify (es : List Ent) (m0 s0 : List (Key × Node Key)) : String :=
-  let nl := (es.filter fun e => e.kind = 'L' || e.kind = 'Y').length
+  let nl := (es.filter fun e => e.kind = 'L' || e.kind = 'Y' || e.kind = 'H').length
   let differs := es.any fun e => graphOf m0 (e.name.splitOn "/") != graphOf s0 (e.name.splitOn "/")
   s!"n{es.length}l{nl}{if differs then "u" else ""}"
 
